@@ -104,17 +104,23 @@ def c10(rng, index, tier):
             params["stop_status"] = rng.choice(["stopped", "error done"])
             case["expect_error"] = ["ValueError"]
         else:
-            params["max_tries"] = rng.choice(["two", "1.5x", ""])
+            params["max_tries"] = rng.choice(["two", "1.5x"])
             case["expect_error"] = ["ValueError", "TypeError"]
     else:
         params["max_tries"] = str(rng.choice([1, 2, 2, 3, 3, 4]))
         if rng.random() < 0.35:
-            params["max_concurrent_tries"] = str(rng.choice([1, 1, 2]))
+            params["max_concurrent_tries"] = str(min(int(params["max_tries"]), rng.choice([1, 1, 2])))
         if rng.random() < 0.6:
             params["rerun_status"] = " ".join(rng.sample(["fail", "error", "warn", "pass", "skip", "cancel", "interrupted"], rng.randint(1, 4)))
         if rng.random() < 0.4:
             params["stop_status"] = " ".join(rng.sample(["fail", "error", "pass", "warn", "skip"], rng.randint(1, 2)))
         case["plan"] = travgen.draw_plan(rng, case.get("suite_spec"), failing=rng.choice(["random", "random", "one-flaky", "one-persistent"]), seed=index)
+        if rng.random() < 0.1 and case.get("suite_spec"):
+            # a result that is never reported
+            case["plan"]["withhold_re"] = rng.choice(suitegen.leaf_names(case["suite_spec"]))
+            case["plan"]["by_class"] = {}
+            params["max_tries"] = "1"
+            params.pop("max_concurrent_tries", None)
     return case
 
 
